@@ -155,6 +155,8 @@ def specAck (resp : Bytes) : Option Bytes :=
   match parse resp with
   | some (.map kvs, _) =>
     let ps := Spec.pairs (Spec.objsToList kvs)
+    -- an ack is a map with string keys: anything else is not a conforming response
+    if !(ps.all fun (k, _) => match k with | .str _ => true | .bin _ => true | _ => false) then none else
     -- the last "ack" entry counts (a map is a set of pairs; the decoder keeps the last)
     match (ps.filter fun (k, _) => match k with | .str s => s == kAck | .bin s => s == kAck | _ => false).getLast? with
     | some (_, .str a) => some a
